@@ -12,7 +12,7 @@ def toolOf : String → Option Tool
   | "garbage_ragged" => some .garbageRagged | "garbage_missing" => some .garbageMissing
   | "garbage_length" => some .garbageLength
   | "garbage_tree" => some .garbageTree | "exit3" => some .exit3 | "hang" => some .hang
-  | "sigkill" => some .sigkill
+  | "sigkill" => some .sigkill | "hang_ignore_term" => some .hangIgnoreTerm
   | "missing" => some .missing | "isdir" => some .isdir | "nulbyte" => some .nulbyte | _ => none
 
 def seqtypeOf : String → Option String
@@ -32,8 +32,10 @@ def showRes : Res → String
 
 def callOf : List String → Option Call
   | ["start"] => some .start
-  | ["join", "-"] => some (.join false)
-  | ["join", "t"] => some (.join true)
+  | ["join", "-"] => some (.join .none)
+  | ["join", "t"] => some (.join .pos)
+  | ["join", "0"] => some (.join .zero)
+  | ["join", "0.0"] => some (.join .zero)
   | ["cancel"] => some .cancel
   | ["state"] => some .getState
   | ["tick"] => some .tick
